@@ -19,6 +19,7 @@ FN = {
     "u1": ([], ["p", "y", "z"]),
     "u2": ([], ["p", "y"]),
     "u3": ([], ["p", "y", "z"]),
+    "u4": ([], ["p", "y", "z"]),
 }
 
 
@@ -125,7 +126,7 @@ def gen(rng, tier, quarantine=()):
     mode = rng.choice(["all", "some", "some", "none"])
     if "always-instrument-all" in quarantine:
         mode = "all"
-    undefined_global = fn in ("u1", "u2", "u3")
+    undefined_global = fn in ("u1", "u2", "u3")  # (u4 only reads defined globals)
     if undefined_global and "no-full-instrumentation-with-undefined-global" in quarantine:
         # KF-C16-1: with every variable instrumented the undefined global is fetched
         # through interact at entry and fails there even if the path never uses it
